@@ -23,6 +23,7 @@ def local_names(t, ev):
         t2 = re.sub(r"^%s::ast::" % ev, "Ast.", t2)
         t2 = re.sub(r"^utils::\w+::", "utils.", t2)
         t2 = t2.replace("<std::iter::Peekable<std::str::Chars<'_>> as iter::Iterator>::", "Chars.")
+        t2 = t2.replace("<std::iter::Peekable<std::str::Chars<'a>> as iter::Iterator>::", "Chars.")
         t2 = t2.replace("<std::iter::Peekable<std::str::Chars<'_>> as iter::Peekable::<I>>::", "Chars.")
         if t2 in ("iter::Peekable::peek", "iter::Peekable::next_if", "iter::Peekable::next_if_eq"):
             t2 = "Chars." + t2.rsplit("::", 1)[1]
@@ -95,6 +96,7 @@ class EvTables:
                 ctx.env[vid] = ("C%d" % i,)
             t = T.alpha(T.strip_tail_returns(T.normalise(self.TR.term(a["body"], ctx))))
             t = local_names(t, self.ev)
+            t = T.alpha(T.normalise(self.inline_helpers(t)))
             names = self.arm_ctor_names(a["pat"])
             if not names:
                 self.issue("T_eval", f.key, "arm pattern is not a plain Node constructor: %s" % T.show(p))
@@ -103,6 +105,26 @@ class EvTables:
                 out[n] = {"term": t, "nbind": len(binders), "line": a["sp"][0], "guard": a.get("guard") is not None, "pat": p}
         self._cache["eval_arms"] = out
         return out
+
+    def inline_helpers(self, t, depth=0):
+        """Inline calls to small, loop-free, non-recursive helper functions of the evaluator's ast module
+        (so that extracting an arm into a helper does not change its summary).  Big or looping helpers
+        (gamma, gcd, lcm, lambert_w, ilog) stay calls."""
+        if not isinstance(t, tuple) or depth > 3:
+            return t
+        t = tuple(self.inline_helpers(x, depth) for x in t)
+        if len(t) >= 2 and t[0] == "call" and isinstance(t[1], str) and t[1].startswith("Ast.") and t[1] != "Ast.eval":
+            f = self.fn("::ast::" + t[1][4:])
+            if f is not None and f.kind != "Closure" and not f.derived:
+                body = self.fn_term(f, inline_pure=True)
+                body = T.strip_tail_returns(body)
+                loops = any(isinstance(s_, tuple) and s_ and s_[0] in ("loop", "for") for s_ in subterms(body))
+                recursive = any(isinstance(s_, tuple) and len(s_) > 1 and s_[0] == "call" and s_[1] == t[1] for s_ in subterms(body))
+                params = [nm for (_, nm, _) in T.param_ids(f)]
+                if not loops and not recursive and T.term_size(body) <= 60 and len(params) == len(t) - 2 and all(params):
+                    inl = T.subst_params(body, dict(zip(params, t[2:])))
+                    return self.inline_helpers(inl, depth + 1)
+        return t
 
     @staticmethod
     def arm_ctor_names(pat):
